@@ -1472,23 +1472,6 @@ func (p *Posix) CompleteMultipartUpload(ctx context.Context, input *s3.CompleteM
 
 	upiddir := filepath.Join(objdir, uploadID)
 
-	// Sidecar metadata is keyed by object name and outlives the file it
-	// described: the assembled object must not inherit the attributes (tags,
-	// user metadata, content headers) of the one it replaces (see PutObject).
-	if _, ok := p.meta.(meta.SideCar); ok {
-		err := p.meta.DeleteAttributes(bucket, object)
-		if err != nil {
-			return nil, fmt.Errorf("clear object attributes: %w", err)
-		}
-	}
-
-	userMetaData := make(map[string]string)
-	objMeta := p.loadObjectMetaData(bucket, upiddir, nil, userMetaData)
-	err = p.storeObjectMetadata(f.File(), bucket, object, objMeta)
-	if err != nil {
-		return nil, err
-	}
-
 	objname := filepath.Join(bucket, object)
 	dir := filepath.Dir(objname)
 	if dir != "" {
@@ -1513,6 +1496,25 @@ func (p *Posix) CompleteMultipartUpload(ctx context.Context, input *s3.CompleteM
 		if err != nil {
 			return nil, fmt.Errorf("create object version: %w", err)
 		}
+	}
+
+	// Sidecar metadata is keyed by object name and outlives the file it
+	// described: the assembled object must not inherit the attributes (tags,
+	// user metadata, content headers) of the one it replaces (see PutObject).
+	// The replaced object has been archived with its attributes by now; the
+	// new object's attributes are written only from here on.
+	if _, ok := p.meta.(meta.SideCar); ok {
+		err := p.meta.DeleteAttributes(bucket, object)
+		if err != nil {
+			return nil, fmt.Errorf("clear object attributes: %w", err)
+		}
+	}
+
+	userMetaData := make(map[string]string)
+	objMeta := p.loadObjectMetaData(bucket, upiddir, nil, userMetaData)
+	err = p.storeObjectMetadata(f.File(), bucket, object, objMeta)
+	if err != nil {
+		return nil, err
 	}
 
 	// if the versioning is enabled, generate a new versionID for the object
